@@ -54,6 +54,41 @@ def _parents(fn):
     return pm
 
 
+def _carry_values(fn: ast.AST):
+    """(value when carry_loop_iterations is true, value otherwise) of the expression passed as
+    ``loop_iteration_carry=`` to the context constructor in ``copy``."""
+    ctor = next((c for c in ast.walk(fn) if isinstance(c, ast.Call) and text(c.func) in ("self.__class__", "RenderContext", "type(self)")), None)
+    if ctor is None:
+        raise ValueError("no constructor call")
+    arg = next((k.value for k in ctor.keywords if k.arg == "loop_iteration_carry"), None)
+    if arg is None:
+        raise ValueError("constructor not given loop_iteration_carry")
+    if isinstance(arg, ast.IfExp) and is_name(arg.test, "carry_loop_iterations"):
+        return arg.body, arg.orelse
+    if not isinstance(arg, ast.Name):
+        raise ValueError(f"loop_iteration_carry={text(arg)[:40]}")
+    on = off = None
+    for st in fn.body:
+        if isinstance(st, ast.If) and is_name(st.test, "carry_loop_iterations"):
+            for part, which in ((st.body, "on"), (st.orelse, "off")):
+                for s_ in part:
+                    if isinstance(s_, ast.Assign) and is_name(s_.targets[0], arg.id):
+                        if which == "on":
+                            on = s_.value
+                        else:
+                            off = s_.value
+        elif isinstance(st, (ast.Assign, ast.AnnAssign)):
+            tgt = st.targets[0] if isinstance(st, ast.Assign) else st.target
+            if is_name(tgt, arg.id) and st.value is not None:
+                v = st.value
+                if isinstance(v, ast.IfExp) and is_name(v.test, "carry_loop_iterations"):
+                    on, off = v.body, v.orelse
+                else:
+                    # a default assigned before `if carry_loop_iterations:` overrides it
+                    off = v
+    return on, off
+
+
 def bind_ctx_arg(call: ast.Call):
     """the context argument of a ``render*(context, buffer, ...)`` call (positional or keyword)."""
     for k in call.keywords:
@@ -195,69 +230,91 @@ def run(repo: Repo) -> Result:
                 res.add("C06-REPEAT", f.qual, "check-without-export", f"{f.qual} calls raise_for_loop_limit directly: the length is checked but not exported to nested checks (use context.loop / context.iterations)", f.file, c.lineno)
 
     # ---- C06-CM ----------------------------------------------------------------
-    lp = repo.own_method(CTX, "loop")
+    # (all shape rules below look at the function after private helpers are inlined and local
+    #  aliases of attribute chains are propagated — sa/normalize.py — and read guards through
+    #  their path conditions — sa/guards.py — so that an extracted helper, a limit read into a
+    #  local, an early return or an extra keyword argument does not change the verdict)
+    from ..guards import canon, exits, raises_of
+    from ..normalize import nfunc
+    from .. import symb
+
+    def body_of(fn):
+        return [s for s in fn.body if not (isinstance(s, ast.Expr) and isinstance(s.value, ast.Constant))]
+
+    def is_limit_call(st, arg_text: str) -> bool:
+        return isinstance(st, ast.Expr) and isinstance(st.value, ast.Call) and callee_name(st.value) == "raise_for_loop_limit" and is_self_attr(st.value.func) and st.value.args and text(st.value.args[0]) == arg_text
+
+    lp = nfunc(repo, repo.own_method(CTX, "loop"), keep=("raise_for_loop_limit",))
     res.ob(lp.qual, 3)
-    body = [s for s in lp.node.body if not (isinstance(s, ast.Expr) and isinstance(s.value, ast.Constant))]
-    first = text(body[0]) if body else ""
-    if first != "self.raise_for_loop_limit(forloop.length)":
+    body = body_of(lp.node)
+    if not body or not is_limit_call(body[0], "forloop.length"):
         res.add("C06-CM", lp.qual, "check-first", "RenderContext.loop must call self.raise_for_loop_limit(forloop.length) before anything else", lp.file, lp.line)
     if len(body) < 2 or text(body[1]) != "self.loops.append(forloop)":
         res.add("C06-CM", lp.qual, "push", "RenderContext.loop must push the loop right after the check", lp.file, lp.line)
     if not any(isinstance(n, ast.Try) and n.finalbody and "self.loops.pop()" in text(n.finalbody[0]) for n in ast.walk(lp.node)):
         res.add("C06-CM", lp.qual, "pop-finally", "RenderContext.loop must pop the loop in a finally block", lp.file, lp.line)
-    itr = repo.cls(CTX).methods.get("iterations")
+    itr0 = repo.cls(CTX).methods.get("iterations")
     res.ob(f"{CTX}.iterations", 4)
-    if itr is None:
+    if itr0 is None:
         res.add("C06-CM", CTX, "iterations-missing", "RenderContext.iterations (limit check + carry for tags that repeat a block without a ForLoop) not found", "liquid/context.py", 0)
     else:
-        body = [s for s in itr.node.body if not (isinstance(s, ast.Expr) and isinstance(s.value, ast.Constant))]
+        itr = nfunc(repo, itr0, keep=("raise_for_loop_limit",), aliases=False)
+        body = body_of(itr.node)
         if "contextmanager" not in itr.decorators():
             res.add("C06-CM", itr.qual, "contextmanager", "iterations must be a @contextmanager", itr.file, itr.line)
-        if not body or text(body[0]) != "self.raise_for_loop_limit(length)":
+        if not body or not is_limit_call(body[0], "length"):
             res.add("C06-CM", itr.qual, "check-first", "iterations must call self.raise_for_loop_limit(length) first", itr.file, itr.line)
-        t = text(itr.node)
         saved = [s for s in body if isinstance(s, ast.Assign) and text(s.value) == "self.loop_iteration_carry" and isinstance(s.targets[0], ast.Name)]
         mult = [s for s in body if isinstance(s, ast.Assign) and attr_chain(s.targets[0]) == ["self", "loop_iteration_carry"]]
-        if not saved or not mult or text(mult[0].value) not in (f"{saved[0].targets[0].id} * length", f"length * {saved[0].targets[0].id}", "self.loop_iteration_carry * length"):
+        if not saved or not mult or text(mult[0].value) not in (f"{saved[0].targets[0].id} * length", f"length * {saved[0].targets[0].id}", "self.loop_iteration_carry * length", "length * self.loop_iteration_carry"):
             res.add("C06-CM", itr.qual, "multiply", "iterations must multiply loop_iteration_carry by length for the duration of the block", itr.file, itr.line)
         fin = [n for n in ast.walk(itr.node) if isinstance(n, ast.Try) and n.finalbody]
         if not fin or not saved or text(fin[0].finalbody[0]) != f"self.loop_iteration_carry = {saved[0].targets[0].id}":
             res.add("C06-CM", itr.qual, "restore-finally", "iterations must restore the previous carry in a finally block", itr.file, itr.line)
 
     # ---- C06-LIMIT ----------------------------------------------------------------
-    rl = repo.own_method(CTX, "raise_for_loop_limit")
+    # the only raise is LoopIterationLimitError, reached under exactly
+    #   {limit is not None,  product(loop lengths on the stack, length, carry) > limit}
+    rl = nfunc(repo, repo.own_method(CTX, "raise_for_loop_limit"))
     res.ob(rl.qual, 3)
-    t = text(rl.node)
-    ifs = [n for n in walk_no_nested(rl.node) if isinstance(n, ast.If)]
-    ok = False
-    if len(ifs) == 1:
-        test = ifs[0].test
-        conj = test.values if isinstance(test, ast.BoolOp) and isinstance(test.op, ast.And) else [test]
-        cmp_ = next((x for x in conj if isinstance(x, ast.Compare) and len(x.ops) == 1 and isinstance(x.ops[0], ast.Gt)), None)
-        if cmp_ is not None and isinstance(cmp_.ops[0], ast.Gt) and attr_chain(cmp_.comparators[0]) == ["self", "env", "loop_iteration_limit"]:
-            red = cmp_.left
-            if isinstance(red, ast.Call) and callee_name(red) == "reduce" and len(red.args) == 3 and text(red.args[0]) == "mul":
-                gen_ok = text(red.args[1]) == "(loop.length for loop in self.loops)"
-                init = text(red.args[2])
-                init_ok = init in ("length * self.loop_iteration_carry", "self.loop_iteration_carry * length")
-                ok = gen_ok and init_ok
-        if not (len(ifs[0].body) == 1 and isinstance(ifs[0].body[0], ast.Raise) and "LoopIterationLimitError" in text(ifs[0].body[0])):
-            ok = False
+    LIMIT = "self.env.loop_iteration_limit"
+    want_product = {
+        symb.norm(ast.parse("reduce(mul, (loop.length for loop in self.loops), length * self.loop_iteration_carry)", mode="eval").body),
+    }
+    rs = [e for e in exits(rl.node) if e.kind == "raise"]
+    ok = len(rs) == 1 and rs[0].raised() == "LoopIterationLimitError"
+    detail = ""
+    if ok:
+        cs = rs[0].canon
+        cmp_ = [c for c in rs[0].conds if isinstance(c, ast.Compare) and len(c.ops) == 1 and isinstance(c.ops[0], (ast.Gt, ast.Lt))]
+        others = [canon(c) for c in rs[0].conds if c not in cmp_]
+        if len(cmp_) != 1:
+            ok, detail = False, f"conditions {cs}"
+        else:
+            c = cmp_[0]
+            big, small = (c.left, c.comparators[0]) if isinstance(c.ops[0], ast.Gt) else (c.comparators[0], c.left)
+            if text(small) != LIMIT or symb.norm(big) not in want_product:
+                ok, detail = False, f"compares `{text(big)[:80]}` > `{text(small)}`"
+            extra = [o for o in others if o != f"{LIMIT} is not None"]
+            if extra:
+                ok, detail = False, f"extra condition(s) {extra} weaken the guard"
     if not ok:
-        res.add("C06-LIMIT", rl.qual, "product", "raise_for_loop_limit must raise LoopIterationLimitError iff reduce(mul, (loop.length for loop in self.loops), length * self.loop_iteration_carry) > limit", rl.file, rl.line)
+        res.add("C06-LIMIT", rl.qual, "product", f"raise_for_loop_limit must raise LoopIterationLimitError iff reduce(mul, (loop.length for loop in self.loops), length * self.loop_iteration_carry) > limit ({detail or 'no single LoopIterationLimitError raise found'})", rl.file, rl.line)
 
     # ---- C06-COPY ------------------------------------------------------------------
-    cp = repo.own_method(CTX, "copy")
+    cp = nfunc(repo, repo.own_method(CTX, "copy"), aliases=False)
     res.ob(cp.qual, 3)
-    carry_if = next((n for n in cp.node.body if isinstance(n, ast.If) and is_name(n.test, "carry_loop_iterations")), None)
-    ok = False
-    if carry_if is not None and len(carry_if.body) == 1 and isinstance(carry_if.body[0], ast.Assign):
-        v = carry_if.body[0].value
-        if isinstance(v, ast.Call) and callee_name(v) == "reduce" and text(v.args[0]) == "mul" and text(v.args[1]) == "(loop.length for loop in self.loops)" and text(v.args[2]) == "self.loop_iteration_carry":
-            if carry_if.orelse and text(carry_if.orelse[0]) == "loop_iteration_carry = 1":
-                ok = True
-    if not ok:
-        res.add("C06-COPY", cp.qual, "carry", "copy(carry_loop_iterations=True) must compute reduce(mul, (loop.length for loop in self.loops), self.loop_iteration_carry)", cp.file, cp.line)
+    want_carry = symb.norm(ast.parse("reduce(mul, (loop.length for loop in self.loops), self.loop_iteration_carry)", mode="eval").body)
+    try:
+        # the value of the local handed to the constructor, as a function of carry_loop_iterations
+        vals = _carry_values(cp.node)
+    except Exception as err:  # noqa: BLE001
+        vals = None
+        res.add("C06-COPY", cp.qual, "carry", f"copy: cannot determine the carried product ({err})", cp.file, cp.line)
+    if vals is not None:
+        on, off = vals
+        if on is None or symb.norm(on) != want_carry or off is None or text(off) != "1":
+            res.add("C06-COPY", cp.qual, "carry", f"copy(carry_loop_iterations=True) must compute reduce(mul, (loop.length for loop in self.loops), self.loop_iteration_carry) and 1 otherwise (found `{text(on)[:80] if on is not None else None}` / `{text(off) if off is not None else None}`)", cp.file, cp.line)
     ctors = [c for c in calls(cp.node) if text(c.func) in ("self.__class__", "RenderContext")]
     for c in ctors:
         res.ob(f"{cp.qual}:ctor")
